@@ -11,7 +11,8 @@ from harness import c11_lib, c11_check, ops_common as oc
 
 PROP = 'C11'
 MODEL_MODULES = ['TenpyModel.Util.J', 'TenpyModel.Ops.Sym', 'TenpyModel.Ops.Terms', 'TenpyModel.Ops.Graph',
-                 'TenpyModel.Ops.MPO']
+                 'TenpyModel.Ops.MPO', 'TenpyModel.C11.ExtEnv', 'TenpyModel.C11.ExtStruct', 'TenpyModel.C11.ExtDecide',
+                 'TenpyModel.C11.ExtTerms']
 PROPS_MODULES = ['TenpyModel.C11.Props',
                  'TenpyModel.C11.Props2']
 LEAN_MODULES = PROPS_MODULES
@@ -123,7 +124,19 @@ def work_chunk(args):
     _mem_limit(True)
     out = []
     reals, reqs, idx = [], [], []
+    ext_recs = {}
+    ext_idx = [n for n, c in enumerate(cases) if c.get('kind') == 'ext']
+    if ext_idx:
+        # extension round (harness/c11_ext.py): own driver call for the chunk
+        from harness import c11_ext
+        _mem_limit(False)
+        for n, rec in zip(ext_idx, c11_ext.work([cases[n] for n in ext_idx], use_model)):
+            ext_recs[n] = rec
+        _mem_limit(True)
     for n, case in enumerate(cases):
+        if n in ext_recs:
+            out.append(ext_recs[n])
+            continue
         rec = {'case': case, 'fails': [], 'facts': {}, 'skipped': None}
         out.append(rec)
         if case.get('kind') == 'api':
@@ -196,8 +209,15 @@ def run_cases(ctx, cases, use_model=True, res=None):
                 res.count('skipped=' + rec['skipped'])
                 continue
             api = case.get('kind') == 'api'
-            res.note_case(case, True if api else nontrivial(case))
-            for h in (['api_scenario=' + case.get('name', '?')] if api else case_hist(case)):
+            ext = case.get('kind') == 'ext'
+            if ext:
+                from harness import c11_ext
+                res.note_case(case, c11_ext.nontrivial(case))
+                hist = c11_ext.case_hist(case)
+            else:
+                res.note_case(case, True if api else nontrivial(case))
+                hist = ['api_scenario=' + case.get('name', '?')] if api else case_hist(case)
+            for h in hist:
                 res.count(h)
             for k, v in rec['facts'].items():
                 if v is True:
@@ -251,6 +271,18 @@ def run(ctx):
     n_api = 80 if ctx.quick else 1200
     run_cases(ctx, c11_api.gen_cases(ctx.sub_rng('api'), n_api), True, res)
     res.extra['api_scenarios'] = n_api
+    # extension round: environments / expectation value / variance, re-arrangements, decision glue, to_TermList
+    # against the Lean models C11/Ext*.lean + dense oracles (own PRNG stream, own share of the budget)
+    from harness import c11_ext
+    core.use_repo()
+    n_ext = 240 if ctx.quick else 4000
+    ext_rng = ctx.sub_rng('ext')
+    done_ext = 0
+    while done_ext < n_ext and ctx.elapsed() < ctx.budget_s * 0.95:
+        nb = min(240 if ctx.quick else 800, n_ext - done_ext)
+        run_cases(ctx, c11_ext.gen_cases(ext_rng, nb, ctx.quick), True, res)
+        done_ext += nb
+    res.extra['ext_cases'] = done_ext
     res.extra['anchor_coverage_note'] = ANCHOR_COVERAGE_NOTE
     return res
 
@@ -262,6 +294,8 @@ def search(ctx, reasons):
     t0 = time.time()
     while done < (400 if ctx.quick else 6000) and time.time() - t0 < (60 if ctx.quick else 600):
         run_cases(ctx, gen_cases(ctx, f'search{k}', 200), False, res)
+        from harness import c11_ext
+        run_cases(ctx, c11_ext.gen_cases(ctx.sub_rng(f'extsearch{k}'), 100, ctx.quick), False, res)
         done += 200
         k += 1
     return res
